@@ -50,8 +50,3 @@ func VerifReadCurrentRegex(filePath string, ruleId string, chainOffset uint8) st
 func VerifValidateSemver(version string) error {
 	return validateSemver(version)
 }
-
-// VerifCompareRegex exposes compareRegex (prints to os.Stdout).
-func VerifCompareRegex(ruleId string, generatedRegex string, currentRegex string) error {
-	return compareRegex(ruleId, generatedRegex, currentRegex)
-}
